@@ -74,6 +74,7 @@ class Worker:
         env.pop("PYTHONPATH", None)
         if self.role == "host":
             env["PYTHONPATH"] = REPO
+        env["VF_ROLE"] = self.role
         if self.extra and self.extra != "zygote":
             env["VF_WORKER_EXTRA"] = self.extra
         self.proc = subprocess.Popen(
